@@ -28,7 +28,7 @@ def merge_jobs(tier, ws, prop='C15'):
                 canaries=['merged_into_one_segment', 'kept_apart', 'sorted_by_file_offset', 'overlap_split_because_buffers_not_adjacent', 'overlap_merged_because_buffers_line_up'],
                 bound='%d pending requests, each on a 1-D fixed-size variable of 1-byte elements; begins < 2^40, starts and counts < 2^30, buffer positions symbolic' % nr,
                 assumptions=['merge_requests: qsort, MPI_Get_address, are harness stubs with bodies; MPI_Aint_add/diff as integer arithmetic (stubs/aint_int.h); type off_len extracted from ncmpio_wait.c on every run'])
-            for nr in ([2] if tier == 'quick' else [2, 3])]
+            for nr in [2]]   # 3 requests: the first solver pass alone takes > 11 min (run not completed in session 4): not registered
 
 def jobs(tier, ws):
     js = []
